@@ -84,6 +84,11 @@ var seedHelpers = "{{- define \"x\" -}}kind: Secret{{- end -}}"
 var oddChartFiles = []string{"charts/README.md", "charts/notes.txt", "charts/sub/charts/x.txt", "charts/.hidden", "charts/_ignored", "charts/a.tgz", "charts/sub-0.1.0.tgz",
 	"charts/sub.prov", "charts/x/y", "charts/sub/charts/deep/Chart.yaml", "crds/x.yaml", "charts/sub/README", "charts/s", "charts/LICENSE", "templates/NOTES.txt", "templates/sub/deep/t.yaml", "files/a.bin", "README.md", ".helmignore", "requirements.lock", "requirements.yaml", "Chart.lock"}
 
+var oddValues = []string{"sub: null\n", "sub:\n", "sub: ~\n", "sub: 5\n", "sub: [1]\n", "sub: \"str\"\n", "global: null\n", "global: 3\n", "global: [a]\n", "tags: null\n", "tags: 5\n", "tags:\n  t1: null\n",
+	"sub:\n  enabled: null\n", "sub:\n  global: 7\n", "a: null\nsub:\n  exports: null\n", "sub:\n  exports:\n    data: 3\n", "null\n", "[]\n", "3\n", "sub: {}\nglobal: {}\ntags: {}\n"}
+var oddUserValues = []map[string]any{{"sub": nil}, {"global": nil}, {"tags": nil}, {"sub": "str"}, {"sub": 5.0}, {"sub": []any{1.0}}, {"global": 3.0}, {"tags": "x"}, {"sub": map[string]any{"global": nil}}, {"sub": map[string]any{"enabled": nil}},
+	{"al": nil}, {"sub": map[string]any{"exports": nil}}, {"a": nil, "sub": map[string]any{}}}
+
 func corrCrash(seed uint64, n int, tier string, out string, replay string) {
 	rep := NewReport("C20", "crash", seed, "case = one external input mutated at byte/token level (or replaced by raw bytes), in 30% of the cases together with 1-3 extra files under odd names (loose files directly under charts/, fake archives and provenance files, Helm 2 requirement files): chart files (Chart.yaml incl. dependencies / import-values, values.yaml, values.schema.json, templates) loaded from buffers, archives and directories and then driven through dependency processing, value computation, rendering, manifest sorting and lint; values-file reading; strvals expressions; repository index followed by queries; provenance files; .helmignore; plugin.yaml; each call under recover and a 20 s watchdog; non-trivial = every case (all are mutants); distinct = hash of the mutated input")
 	tmp, _ := os.MkdirTemp("", "corr-crash")
@@ -104,6 +109,15 @@ func corrCrash(seed uint64, n int, tier string, out string, replay string) {
 			"charts/sub/Chart.yaml": []byte(seedSubYAML), "charts/sub/values.yaml": []byte(seedSubValues), "charts/sub/templates/s.yaml": []byte("kind: Service\n")}
 		target := Pick(r, []string{"Chart.yaml", "Chart.yaml", "values.yaml", "values.schema.json", "templates/a.yaml", "charts/sub/Chart.yaml", "charts/sub/values.yaml"})
 		files[target] = mutateBytes(r, files[target])
+		// well-formed but ill-typed values: nulls and scalars where tables are expected (sub-chart sections, global, tags)
+		userVals := map[string]any{"a": 2.0}
+		if i%6 == 1 {
+			files["values.yaml"] = []byte(Pick(r, oddValues))
+			target = "values.yaml"
+		}
+		if i%6 == 4 {
+			userVals = Pick(r, oddUserValues)
+		}
 		if r.Chance(5) {
 			raw := make([]byte, r.Intn(200))
 			for k := range raw {
@@ -124,7 +138,7 @@ func corrCrash(seed uint64, n int, tier string, out string, replay string) {
 		if i < 2 {
 			rep.Sample(map[string]any{"target": target, "content": string(files[target])})
 		}
-		input := map[string]any{"target": target, "content": string(files[target]), "extraFiles": extra}
+		input := map[string]any{"target": target, "content": string(files[target]), "extraFiles": extra, "userValues": userVals}
 		known := ""
 		if target == "Chart.yaml" && strings.Contains(string(files[target]), "import-values") {
 			known = "?import"
@@ -139,7 +153,7 @@ func corrCrash(seed uint64, n int, tier string, out string, replay string) {
 		report("LoadFiles", res, input, "", i)
 		if res == "" && err == nil && c != nil {
 			res = guarded(func() {
-				vals := map[string]any{"a": 2.0}
+				vals := deepCopyMap(userVals)
 				if err := chartutil.ProcessDependencies(c, vals); err != nil {
 					return
 				}
